@@ -32,3 +32,8 @@ Print Assumptions C29_eq_str_refuted_int.
 Theorem C29_traverse_refuted_list_str : traverse (JDict [([108], JList [JInt 10; JInt 20])]) [KKey [108]; KKey [107]] = TRaise.
 Proof. reflexivity. Qed.
 Print Assumptions C29_traverse_refuted_list_str.
+
+(* e.j['l'][0] < e.j['m'][0] with 5 and 12 stored is false: two JSON items are ordered by their JSON text *)
+Theorem C29_items_order_refuted : json_items_lt (JInt 5) (JInt 12) = false /\ json_items_lt (JInt 12) (JInt 5) = true.
+Proof. exact items_ordered_as_text. Qed.
+Print Assumptions C29_items_order_refuted.
